@@ -538,26 +538,26 @@ type c02Runs struct {
 	harness                                    sync.Once
 	harnessMsg                                 string
 	mu                                         sync.Mutex
-	memoParent                                 string
-	memo                                       sync.Map
 	count                                      map[string]int
 }
 
 // report classifies a failing expression by its smallest failing parts and
 // records one failure per class among them. problem(y, detail) is the clause's
 // verdict on a sub-expression.
-func (r *c02Runs) report(v *verifRun, parent string, x *c02Node, problem func(*c02Node, bool) string) {
+func (r *c02Runs) report(v *verifRun, parent string, x *c02Node, memo map[string]bool, problem func(*c02Node, bool) string) {
 	mins := c02Minimal(x, func(y *c02Node) bool {
-		// verdicts on small parts recur throughout the exhaustive part: remember them
-		if parent != r.memoParent || y == x || len(c02Leaves(y, nil)) > 2 {
+		// verdicts on parts recur from one expression of a job to the next: remember them
+		if memo == nil || y == x {
 			return problem(y, false) != ""
 		}
 		k := v.Clause[len(v.Clause)-4:] + c02Print(y)
-		if bad, ok := r.memo.Load(k); ok {
-			return bad.(bool)
+		if bad, ok := memo[k]; ok {
+			return bad
 		}
 		bad := problem(y, false) != ""
-		r.memo.Store(k, bad)
+		if len(memo) < 200000 {
+			memo[k] = bad
+		}
 		return bad
 	}, nil)
 	full := ""
@@ -598,7 +598,7 @@ func (r *c02Runs) saturated(v *verifRun, class string) bool {
 }
 
 // check runs the four clauses on one expression.
-func (r *c02Runs) check(parent string, x *c02Node) {
+func (r *c02Runs) check(parent string, x *c02Node, memo map[string]bool) {
 	text := c02Print(x)
 	key := text
 	if len(parent) != 6 {
@@ -610,23 +610,23 @@ func (r *c02Runs) check(parent string, x *c02Node) {
 	evalP, partialOK, partialP := c02ParseCheck(parent, x, false)
 	r.parseEval.Case(key, ops > 0 || marker || x.kind == 'b')
 	if evalP != "" {
-		r.report(r.parseEval, parent, x, func(y *c02Node, d bool) string { p, _, _ := c02ParseCheck(parent, y, d); return p })
+		r.report(r.parseEval, parent, x, memo, func(y *c02Node, d bool) string { p, _, _ := c02ParseCheck(parent, y, d); return p })
 	}
 	if partialOK {
 		r.parsePartial.Case(key, marker)
 		if partialP != "" {
-			r.report(r.parsePartial, parent, x, func(y *c02Node, d bool) string { _, _, p := c02ParseCheck(parent, y, d); return p })
+			r.report(r.parsePartial, parent, x, memo, func(y *c02Node, d bool) string { _, _, p := c02ParseCheck(parent, y, d); return p })
 		}
 	}
 
 	if ok, evalS, buildS := c02StructCheck(parent, x); ok {
 		r.structEval.Case(key, ops > 0)
 		if evalS != "" {
-			r.report(r.structEval, parent, x, func(y *c02Node, d bool) string { _, p, _ := c02StructCheck(parent, y); return p })
+			r.report(r.structEval, parent, x, memo, func(y *c02Node, d bool) string { _, p, _ := c02StructCheck(parent, y); return p })
 		}
 		r.build.Case(key, ops > 0 || marker)
 		if buildS != "" {
-			r.report(r.build, parent, x, func(y *c02Node, d bool) string { _, _, p := c02StructCheck(parent, y); return p })
+			r.report(r.build, parent, x, memo, func(y *c02Node, d bool) string { _, _, p := c02StructCheck(parent, y); return p })
 		}
 	}
 }
@@ -747,11 +747,12 @@ func c02RunJob(r *c02Runs, parent string, j c02Job) {
 	leaves := c02Leaves(x, nil)
 	idx := make([]int, len(leaves))
 	idx[0] = j.first
+	memo := map[string]bool{}
 	for {
 		for i, l := range leaves {
 			j.alpha[idx[i]].set(l)
 		}
-		r.check(parent, x)
+		r.check(parent, x, memo)
 		i := len(idx) - 1
 		for ; i >= 1; i-- {
 			idx[i]++
@@ -826,12 +827,12 @@ func c02RandLen(rng *rand.Rand) int {
 func TestVerifC02(t *testing.T) {
 	const parent6 = "ACCTGA" // no span of two or more bases equals the reverse complement of any span (checked below)
 	// the distinct-case maps are large and long-lived; collect less often
-	defer debug.SetGCPercent(debug.SetGCPercent(400))
-	capCases := 20000
+	defer debug.SetGCPercent(debug.SetGCPercent(300))
+	capFull, capCases := 20000, 20000 // bounds on alphabet^leaves: for the complete alphabet, for the others
 	nRandom := 40000
 	if verifThorough() {
-		capCases = 750000
-		nRandom = 1500000
+		capFull, capCases = 750000, 100000
+		nRandom = 1000000
 	}
 
 	full := c02AlphaFull(6, true)   // 90 leaf forms: 6 single bases, 21 spans x {none,<,>,<>}
@@ -841,15 +842,14 @@ func TestVerifC02(t *testing.T) {
 
 	domain := func(what string) string {
 		return what + ". Exhaustive part, 6-base parent " + parent6 + ": all 166 expression shapes with <= 3 operators (complement, join of 2..3 operands, any nesting); " +
-			"leaves from all 90 forms (6 single bases; 21 spans n..m, 1<=n<=m<=6, each with no marker, <, >, <>) while 90^leaves <= " + strconv.Itoa(capCases) +
+			"leaves from all 90 forms (6 single bases; 21 spans n..m, 1<=n<=m<=6, each with no marker, <, >, <>) while 90^leaves <= " + strconv.Itoa(capFull) +
 			", else the 27 unmarked forms (27^leaves <= " + strconv.Itoa(capCases) + ") plus a pass over a marked reduced set, else the first 12/8/6/4 of {" + strings.Join(c02Reduced, " ") +
-			"}: complete up to " + c02FullUpTo(capCases) + " leaves, beyond that complete in shape, restricted in leaf values, markers sampled. " +
+			"}: complete up to " + c02FullUpTo(capFull, capCases) + " leaves, beyond that complete in shape, restricted in leaf values, markers sampled. " +
 			"Random part: " + strconv.Itoa(nRandom) + " seeded trees, operators nested to depth 4, joins of 2..6 operands, single bases, spans, optional markers, " +
 			"ACGT parents of length 1..2000 (joins of 4..6 operands only here)"
 	}
 	r := &c02Runs{
-		count:      map[string]int{},
-		memoParent: parent6,
+		count: map[string]int{},
 		parseEval: newVerifRun("C02", "io/genbank.parseLocation/post/eval",
 			domain("GetSequence of a feature with SequenceLocation = parseLocation(t), added with AddFeature to a Sequence holding the parent, equals the independent INSDC evaluation c02Eval(parent, t), no panic; non-trivial = t has an operator, a marker or a single base")),
 		parsePartial: newVerifRun("C02", "io/genbank.parseLocation/post/partial",
@@ -893,7 +893,7 @@ func TestVerifC02(t *testing.T) {
 			k := len(c02Leaves(s, nil))
 			chosen := -1
 			for i, a := range alphas {
-				if c02Pow(len(a), k) <= capCases {
+				if (i == 0 && c02Pow(len(a), k) <= capFull) || (i > 0 && c02Pow(len(a), k) <= capCases) {
 					chosen = i
 					break
 				}
@@ -960,7 +960,7 @@ func TestVerifC02(t *testing.T) {
 				}
 				parent := c02RandParent(rng, plen)
 				depth := 1 + rng.Intn(4)
-				r.check(parent, c02RandTree(rng, plen, depth, true))
+				r.check(parent, c02RandTree(rng, plen, depth, true), nil)
 			}
 		}(w)
 	}
@@ -975,9 +975,9 @@ func TestVerifC02(t *testing.T) {
 	r.build.Done()
 }
 
-func c02FullUpTo(capCases int) string {
+func c02FullUpTo(capFull, capCases int) string {
 	k := 0
-	for c02Pow(90, k+1) <= capCases {
+	for c02Pow(90, k+1) <= capFull {
 		k++
 	}
 	k2 := k
